@@ -125,8 +125,9 @@ pub fn emit(built: &Built, generated: &str) -> String {
     l!("    fn variant(&self) -> usize {{ match self {{ {} }} }}", (0..nv).map(|vi| format!("R::V{}(_) => {}", vi, vi)).collect::<Vec<_>>().join(", "));
 
     // ---- constructors
+    l!("    fn alias_layouts() -> Vec<(usize, usize)> {{ vec![{}] }}", (0..nv).map(|vi| format!("(std::mem::size_of::<Record{0}>(), std::mem::align_of::<Record{0}>())", vi)).collect::<Vec<_>>().join(", "));
     for (fname, uninit) in [("new_full", false), ("new_uninit", true)] {
-        l!("    fn {}(v: usize, src: &mut Src) -> Self {{", fname);
+        l!("    fn {}(v: usize, src: &mut Src, via_from: bool) -> Self {{", fname);
         l!("        match v {{");
         for (vi, fields) in variants.iter().enumerate() {
             l!("            {} => {{", vi);
@@ -136,7 +137,8 @@ pub fn emit(built: &Built, generated: &str) -> String {
                 names.push(f.name.clone());
             }
             let (unpacked, ctor) = if uninit { (format!("UnpackedUninitRecord{}", vi), "new_uninit") } else { (format!("UnpackedRecord{}", vi), "new") };
-            l!("                R::V{}(CappedRecord{}::<CAP>::{}({} {{ {} }}))", vi, vi, ctor, unpacked, names.join(", "));
+            l!("                let unpacked = {} {{ {} }};", unpacked, names.join(", "));
+            l!("                R::V{}(if via_from {{ CappedRecord{}::<CAP>::from(unpacked) }} else {{ CappedRecord{}::<CAP>::{}(unpacked) }})", vi, vi, vi, ctor);
             l!("            }}");
         }
         l!("            _ => unreachable!(),");
